@@ -454,6 +454,25 @@ def schedule(rng, tier):
     return kinds
 
 
+def corpus_cases():
+    """fixed cases run first on every seed: the inputs of past findings and of the repository's own tests"""
+    pi = [0.479367, 0.172572, 0.140933, 0.207128]
+    pi2 = [0.1, 0.2, 0.3, 0.4]
+    rates = [0.060602, 0.402732, 0.028230, 0.047910, 0.407249, 0.053277]
+    ts = [[[0.1, 0.001], [0.101, 0.0], [100.0, 2.5]], [[0.5, 1.5], [2.0, 0.0], [1e-5, 37.0]]]
+    base = dict(n=4, mapping=None, code=None, skew=False, wide=False)
+    return [
+        dict(base, kind="HKY", B=2, mode="freqs-only", rows=2, ts=ts, pi=[pi, pi2], kappa=[3.0]),
+        dict(base, kind="GTR", B=2, mode="freqs-only", rows=2, ts=ts, pi=[pi, pi2], rates=[rates]),
+        dict(base, kind="GTR", B=None, mode="none", rows=1, ts=ts[:1], pi=[pi], rates=[rates]),
+        dict(base, kind="HKY", B=2, mode="all", rows=2, ts=ts, pi=[[0.25] * 4, pi], kappa=[2.0, 3.0]),
+        dict(base, kind="GS", B=None, mode="none", rows=1, ts=ts[:1], pi=[pi], rates=[[1.0, 3.0]],
+             mapping=[0, 1, 0, 0, 1, 0]),
+        dict(base, kind="GN", B=None, mode="none", rows=1, ts=ts[1:], pi=[pi], rates=[rates],
+             mapping=[0, 1, 2, 3, 4, 5, 0, 1, 2, 3, 4, 5]),
+    ]
+
+
 def mid(iv):
     return (iv[0] + iv[1]) / 2
 
@@ -485,7 +504,7 @@ def run(tier, seed, replay=None):
     if replay:
         cases = [json.load(open(replay))["replay"]["case"]]
     else:
-        cases = []
+        cases = corpus_cases()
         for kind in schedule(rng, tier):
             c = gen_case(rng, kind, tier, ncodes)
             try:
@@ -531,16 +550,22 @@ def run(tier, seed, replay=None):
                 items.append((check, c, text, dict(case=c), True))
         return [(k, w, rp) for k, w, rp, _ in collapse(items)]
 
+    known = {k["key"] for k in C.load_known() if k["property"] == PID and k.get("status") == "known"}
+
+    def search_new():
+        """failing inputs that are not already listed as known findings (a listed finding must not
+        'explain' a broken obligation)"""
+        return [f for f in search() if f[0] not in known]
+
     if not ok_sync:
         rep.proof = dict(obligations=1, discharged=0, axioms={}, theorems=["T2 translation"], ok=False)
         C.log(f"[{PID}] sync: BROKEN {info}")
-        fs = search()
-        for f in fs:
+        for f in search():
             rep.violation(*f)
-        if not fs:
+        if not search_new():
             rep.violation("C04:translator-failed", info, dict(error=info), False)
         return rep.finish()
-    C.handle_proof(rep, PID, search)
+    C.handle_proof(rep, PID, search_new)
     for f in search():
         rep.violation(*f)
 
@@ -721,7 +746,7 @@ def run(tier, seed, replay=None):
             rep.violation(*f)
         # a model/implementation disagreement without a failing input of its own is reported unless the
         # property itself was found violated on the same model class (which then explains it)
-        explained = {f[0].split(":")[2] for f in fs if not f[0].startswith("C04:raises:")}
+        explained = {f[0].split(":")[2] for f in fs if not f[0].startswith("C04:raises:") and f[0] not in known}
         for k, w, rp, found_input in collapse(corr_bad):
             if found_input or k.split(":")[2] not in explained:
                 rep.violation(k, w, rp, found_input)
